@@ -15,6 +15,7 @@ package c18
 
 import (
 	"fmt"
+	"strings"
 	"testing"
 
 	"bngverif/internal/vstat"
@@ -90,20 +91,25 @@ type shape struct {
 	rels      []string
 }
 
-var relsIP = []string{"eq", "rev", "bit", "rnd"}
+// source/bound relations.  The first four are relative to a random bound address; the others put the degenerate
+// values of the address type (degen_test.go) into the source, the bound address, or both: "<bound kind>/<source>".
+var relsIP = []string{"eq", "rev", "bit", "rnd",
+	"rnd/zero", "rnd/ones", "rnd/special",
+	"zero/eq", "ones/eq", "special/eq",
+	"zero/rnd", "ones/rnd", "special/rnd", "zero/ones", "ones/zero", "zero/bit", "ones/bit", "special/bit", "special/zero"}
 
 var shapes = []shape{
 	{etIPv4, 0, lensV4, relsIP},
 	{etIPv6, 0, lensV6, relsIP},
 	{etARP, 0, lensARP, []string{"rnd"}},
-	{etQ, etIPv4, lensVLAN, []string{"eq", "rnd"}},
-	{etAD, etIPv4, lensVLAN, []string{"eq", "rnd"}},
+	{etQ, etIPv4, lensVLAN, []string{"eq", "rnd", "rnd/zero"}},
+	{etAD, etIPv4, lensVLAN, []string{"eq", "rnd", "zero/eq"}},
 	{0, 0, lensOther, []string{"rnd"}}, // random ethertype that is none of the above
 }
 
 // range configurations relative to the frame's source (and the bound address)
 var (
-	rangesFew   = []string{"none", "cover"}
+	rangesFew   = []string{"none", "cover", "host", "all"}
 	rangesLoose = []string{"none", "cover", "near", "bound-only", "multi", "host", "all"}
 )
 
@@ -117,12 +123,13 @@ var bindShapes = []bindShape{{false, false, false}, {true, false, false}, {true,
 func sweep(t *testing.T, fam family) {
 	e := newEnv(t)
 	p := &prng{s: seedFor("sweep:" + fam.name)}
-	reps := vstat.Scale(2, 40)
+	// (the product grew about fivefold when the degenerate values became dimensions: fewer repetitions per run)
+	reps := vstat.Scale(2, 24)
 	switch fam.name {
-	case "strict", "log-only":
-		reps = vstat.Scale(3, 60)
+	case "strict":
+		reps = vstat.Scale(2, 30)
 	case "disabled+invalid":
-		reps = vstat.Scale(1, 20)
+		reps = vstat.Scale(1, 12)
 	}
 	kf1, kf2 := vstat.IsListed(sigGoBindOrder), vstat.IsListed(sigGoRangeOrder)
 	rangeCfgs := rangesFew
@@ -138,7 +145,7 @@ func sweep(t *testing.T, fam family) {
 					logs := []uint8{1}
 					if bs.present {
 						// the default mode must not matter when a binding exists
-						defaults = []uint8{modeDisabled, modeStrict, modeLoose, modeLogOnly, invalidMode(p)}
+						defaults = []uint8{modeDisabled, modeStrict, modeLoose, modeLogOnly, invalidMode(p), 255}
 						if path == "go" {
 							defaults = []uint8{mode, uint8(p.intn(4))}
 						} else if fam.name == "disabled+invalid" {
@@ -164,6 +171,9 @@ func sweep(t *testing.T, fam family) {
 											o.class("rel:" + rel)
 											o.class("ranges:" + rc)
 											o.class(fmt.Sprintf("et:%04x", sh.et))
+											for _, c := range degenerateClasses(tc) {
+												o.class(c)
+											}
 											record(tc, o)
 											n++
 										}
@@ -184,7 +194,19 @@ func makeSweepCase(p *prng, path string, bs bindShape, mode, def, lg uint8, sh *
 	tc := &tcase{Path: path, Gen: "sweep", Macs: []hexb{p.bytes(6), p.bytes(6)}}
 	tc.Macs[0][0] &^= 1 // unicast source
 	tc.Macs[1][0] &^= 1
+	switch p.intn(7) { // degenerate sender MACs (the all-ones one is not a legal source, which does not stop anybody sending it)
+	case 0:
+		tc.Macs[0] = zeros(6)
+	case 1:
+		tc.Macs[0] = ones(6)
+	case 2:
+		tc.Macs[1] = zeros(6) // the other subscriber
+	}
 	v6fam := sh.et == etIPv6
+	boundKind, srcRel := "rnd", rel
+	if i := strings.IndexByte(rel, '/'); i >= 0 {
+		boundKind, srcRel = rel[:i], rel[i+1:]
+	}
 	// bound addresses
 	steer := path == "go" && kf1 && p.intn(8) != 0 // keep the Go encoding finding out of most go-path cases
 	var b4 []byte
@@ -196,13 +218,37 @@ func makeSweepCase(p *prng, path string, bs bindShape, mode, def, lg uint8, sh *
 		b4 = nonPalindrome4(p)
 	}
 	b6 := p.bytes(16)
+	both := p.intn(2) == 0 // the other family's address takes the same degenerate value
+	switch boundKind {
+	case "zero":
+		if !v6fam || both {
+			b4 = zeros(4)
+		}
+		if v6fam || both {
+			b6 = zeros(16)
+		}
+	case "ones":
+		if !v6fam || both {
+			b4 = ones(4)
+		}
+		if v6fam || both {
+			b6 = ones(16)
+		}
+	case "special":
+		if !v6fam || both {
+			b4 = specialOf(4, p)
+		}
+		if v6fam || both {
+			b6 = specialOf(16, p)
+		}
+	}
 	// source address of the frame
 	var src []byte
 	bound := b4
 	if v6fam {
 		bound = b6
 	}
-	switch rel {
+	switch srcRel {
 	case "eq":
 		src = append([]byte(nil), bound...)
 	case "rev":
@@ -215,6 +261,15 @@ func makeSweepCase(p *prng, path string, bs bindShape, mode, def, lg uint8, sh *
 		}
 	case "bit":
 		src = flipBit(bound, p.intn(len(bound)*8))
+	case "zero":
+		src = zeros(len(bound))
+	case "ones":
+		src = ones(len(bound))
+	case "special":
+		src = specialOf(len(bound), p)
+		if string(src) == string(bound) {
+			src = flipBit(bound, len(bound)*8-1)
+		}
 	default:
 		src = p.bytes(len(bound))
 		if string(src) == string(bound) {
